@@ -30,6 +30,7 @@ def sig_of(m):
 
 
 VAL = re.compile(r"(?:^| )([0-9a-f]+)=([0-9a-f]{16,})(?= |$)")
+NESTED = re.compile(r"[{;]([0-9a-f]+)=([0-9a-f]{24,})(?=[;}])")      # byte strings inside a CKA_WRAP_TEMPLATE / CKA_UNWRAP_TEMPLATE value
 
 
 def direct(r):
@@ -45,10 +46,16 @@ def direct(r):
             for ty, val in VAL.findall(op):
                 # only values the generator draws at random (>= 12 bytes): dates, small integers and labels repeat between public and private objects
                 if ty not in ("0", "100", "161", "121", "40000600", "110", "111", "3") and len(val) >= 24: secrets.append((ty, val, op[:80]))
+            for ty, val in NESTED.findall(op): secrets.append(("nested:" + ty, val, op[:80]))
         if w[0] == "dumpdir":
             files = " ".join(x.split(":", 3)[3] for x in lines[i + 1].split()[3:] if x.startswith("F:") and x.count(":") >= 3)
             for ty, val, where in secrets:
                 if val in files:
+                    if ty.startswith("nested:"):
+                        if "plaintext.nested-template" not in [s for s, _ in out]:
+                            out.append(("plaintext.nested-template", "the byte string of entry %s INSIDE the CKA_WRAP_TEMPLATE / CKA_UNWRAP_TEMPLATE value of a private object (`%s...`) is in "
+                                        "the token directory in the clear" % (ty[7:], where)))
+                        continue
                     out.append(("plaintext", "attribute %s of a private object (`%s...`) is in the token directory in the clear" % (ty, where)))
                     return out
     return out
@@ -67,6 +74,8 @@ def run_k(ctx, kres):
     from .. import pure
     v += pure.run_group(ctx, kres, "K06-pure-confloader", "conf", 300 if ctx.quick else 3000)
     from .. import gen2
+    # byte strings nested in the template attributes of private (and, as control, public) keys: decoded like everything else, and searched for in the raw directory
+    v += k_suite(ctx, kres, "K06-nested-template", [Trace("nested-template", gen2.c06_nested_template(ctx.seed))], in_projection, sig_of=sig_of, direct=direct, shrink_budget=30)
     v += k_suite(ctx, kres, "K06-class-matrix(exhaustive)", [Trace("class-matrix", gen2.c06_class_matrix(tables, ctx.seed))], in_projection, sig_of=sig_of, direct=direct, shrink_budget=60)
     # under threads (the deterministic scheduler of C18): C_UnwrapKey of a private token key pre-empted at its mutex callbacks while another thread logs the token out /
     # closes its session / searches: the key value, announced to the judge, must never be in the token directory in the clear
@@ -106,7 +115,8 @@ LEVEL_TEXT = ("Lean 4 theorems (lean/Shm/Props/C06.lean, Lemmas/Enc.lean, Lemmas
               "preservation through P11Attribute::update / saveTemplate, through C_CreateObject, C_SetAttributeValue, C_CopyObject (the public->private upgrade re-encrypts), "
               "C_GenerateKey, C_GenerateKeyPair, and a frame over every other call, using the unique-object-id invariant proved alongside. File modes: (base & ~umask) & umask = 0 "
               "for all 12-bit values. Tie: K06 decodes and decrypts the real directory after every call.")
-LEVEL_NOTE = ("Trusted: Lean kernel + standard axioms; translator tools/translate_attrs.py (bodies it does not recognise become `unknown`, for which the theorem fails); the creation "
+LEVEL_NOTE = ("The theorem speaks of the byte-string ATTRIBUTES of an object; byte strings NESTED inside a CKA_WRAP_TEMPLATE / CKA_UNWRAP_TEMPLATE value are outside it, and on this tree "
+              "they are stored in the clear even for private keys (K06-nested-template; known finding plaintext.nested-template). Trusted: Lean kernel + standard axioms; translator tools/translate_attrs.py (bodies it does not recognise become `unknown`, for which the theorem fails); the creation "
               "paths of SoftHSM.cpp are hand-modelled and validated by K06; C_UnwrapKey/C_DeriveKey not yet in the model.")
 TECHNIQUE = "Lean 4 invariant over all reachable states built on a syntactic check of source-translated programs; independent Lean decoder+decryptor on real directories"
 
